@@ -161,7 +161,14 @@ func (s *st) node(d int) *ast.Node {
 			}
 		}
 		q := ast.Quant(body, 0, -1, rapid.IntRange(0, 2).Draw(s.t, "lazy") == 0)
-		switch rapid.IntRange(0, 6).Draw(s.t, "qk") {
+		switch rapid.IntRange(0, 7).Draw(s.t, "qk") {
+		case 7:
+			// exact counts around the prefix analysis' expansion limit of a repeated group
+			n := rapid.SampledFrom([]int{3, 4, 5, 6, 8}).Draw(s.t, "qexact")
+			if body.Has(func(x *ast.Node) bool { return x.K == ast.KQuant }) {
+				n = 2 // keep nested repetition small: the backtracking engine is exponential on ambiguous nests
+			}
+			q.Min, q.Max = n, n
 		case 0:
 			q.Min = 1
 		case 1:
@@ -325,7 +332,7 @@ func gen1(t *rapid.T) Case {
 		if i%3 == 2 {
 			in = gen.Random(t, alpha, 10)
 		} else {
-			in = gen.Directed(t, root, true, alpha, false, 12)
+			in = gen.Directed(t, root, true, alpha, false, 20)
 		}
 		c.Inputs = append(c.Inputs, []byte(gen.ByteString(t, in, 12)))
 	}
@@ -467,7 +474,7 @@ func check(c Case) error {
 		h.Discard("oracle-defect: go regexp factors alternation prefixes across (?i)")
 		return nil
 	}
-	cre.Unwrap().MatchTimeout = 3 * time.Second
+	cre.Unwrap().MatchTimeout = 500 * time.Millisecond
 	hasBoundary := strings.Contains(c.Pattern, `\b`) || strings.Contains(c.Pattern, `\B`)
 	// known finding: named groups are numbered after unnamed ones (not in pattern order)
 	namedBeforeUnnamed := false
